@@ -10,13 +10,13 @@ NOTE = ("Trusted base: the SSA->SMT executor in /verif/engine (validated per run
         "evidence file, and the stubs listed there (logging, reflection, codecs, compressors, ServeMux model).")
 
 claimed = {
- "C01": dict(text="For each enumerated route table (34 hand-written core tables plus pairs of templates generated from a grammar: a seeded sample in quick, all 1122 in thorough) and router, every request within the stated byte bounds is decided: the solver proves that no path of Container.Dispatch "
+ "C01": dict(text="For each enumerated route table (37 hand-written core tables plus pairs of templates generated from a grammar: a seeded sample in quick, all 1122 in thorough) and router, every request within the stated byte bounds is decided: the solver proves that no path of Container.Dispatch "
              "invokes a route function for a request the reference admission predicate refuses, that at most one function runs, and that the selected route seen by the "
              "handler is the one that ran. Bounded symbolic model checking is the right level: the property quantifies over all request strings, which only a solver covers.",
              design="5 (C01), 5.0"),
  "C02": dict(text="For each enumerated table and router the solver decides, for every request within the byte bounds, that Dispatch never panics, that at most one function runs, and that the "
              "observed outcome equals the reference outcome (best WebService, then path/If, method, Content-Type, Accept stages; 404/405 with exact Allow set/415/406) wherever the "
-             "three-valued reference is definite; the dispatch is repeated with trace logging on and must agree. Totality over all byte strings needs a solver, not samples.",
+             "three-valued reference is definite; the dispatch is repeated with trace logging on and must agree, and the route Dispatch runs must also run when the request comes through the container's own ServeMux (ServeHTTP). Totality over all byte strings needs a solver, not samples.",
              design="5 (C02), 5.0"),
  "C03": dict(text="Twin containers holding the same table registered in two orders (orders enumerated, request symbolic) must give every request the same outcome; additionally no eligible "
              "route with a literal where the winner has a variable may exist. Decided per table by the solver over all requests in the bound.", design="5 (C03)"),
@@ -30,34 +30,34 @@ claimed = {
  "C05": dict(text="Real Response.EntityWriter, sortedMimes, insertMime, accessorAt, writeJSON/writeXML header logic and Route.matchesAccept run on a flat symbolic Accept header (marshalling stubbed, "
              "map iteration order an explicit choice): the solver proves that an admitted request is never answered 406 by the writer, that Content-Type is a produced registered type, equals "
              "the reference choice (whitespace-insensitive parse, q descending, stable, */* = first producible) wherever the reference is definite, and that the decision taken twice with "
-             "independent map orders agrees.", design="5 (C05)"),
+             "independent map orders agrees; a sequence harness serves two requests with the same symbolic Accept header to routes with different Produces lists (also one method+path told apart by Consumes) and judges the second answer, and the same request repeated must get the same representation.", design="5 (C05)"),
  "C15": dict(text="Every sequence (bounded length) of the Response writing calls over a writer that starts failing at a symbolic call and accepts a symbolic prefix: the solver proves "
-             "StatusCode() = status received, ContentLength() = bytes accepted (before coding when a CompressingResponseWriter sits underneath) and that the failing call returns the writer's error.",
+             "StatusCode() = status received, ContentLength() = bytes accepted (before coding when a CompressingResponseWriter sits underneath) and that the failing call returns the writer's error; under a coding the chunks the underlying writer received are decoded and counted; entity values that cannot be marshalled (natively too) cover the error paths.",
              design="5 (C15)"),
  "C07": dict(text="Every combination of entry point, container/route encoding switch, outcome kind and provider is executed with a symbolic Accept-Encoding header, payload chunks and pre-set "
              "Content-Encoding; compressors are typestate stubs emitting one token ENC(coding, payload): the solver proves that an encoded response is one complete stream of the coding "
              "named in Content-Encoding whose payload is exactly the bytes written in order, that the coding is the one Accept-Encoding asks for first and that encoding is enabled, and "
-             "that otherwise the body is exactly the raw bytes; also behind an encoding outer container (no double encoding), after an earlier request to a route with its own setting, and with a client whose writes fail (ledger only). That real gzip/zlib streams decode to their input is assumed (checked natively on the replayed witnesses only).", design="5 (C07)"),
+             "that otherwise the body is exactly the raw bytes; also behind an encoding outer container (no double encoding), after an earlier request to a route with its own setting, with a superfluous late status (204/304/500) after the body, with a handler that hijacks the connection, with the container switch flipped after Handle registered the plain handler, and with a client whose writes fail (ledger only). That real gzip/zlib streams decode to their input is assumed (checked natively on the replayed witnesses only).", design="5 (C07)"),
  "C10": dict(text="The panic position is a symbolic choice over every position of a generated filter chain (before/after each filter passes on, handler before/after writing); for recovery on/off, "
              "encoding on/off and both entry points the solver proves: recover handler once with the panic value and the active writer, complete decodable body, nothing escapes (or the same "
-             "value propagates when recovery is off), no lock held, compressor ledger clean, and the next request on the same container is served normally; positions include a route selection condition and the container filters around a routing error; the default recover handler is covered for escape, completeness and Content-Length.", design="5 (C10)"),
+             "value propagates when recovery is off), no lock held, compressor ledger clean, and the next request on the same container is served normally; positions include a route selection condition and the container filters around a routing error; the default recover handler is covered for escape, completeness and Content-Length; the request's context may already be done.", design="5 (C10)"),
  "C11": dict(text="Explicit histories (<= 4 operations over a menu of 9 root paths, enumerated) build a container; a fresh container is built from the model of its final content; both get the same "
-             "symbolic probe request through Dispatch and through ServeHTTP (ServeMux modelled) and must answer identically; Add/Remove must not panic. The inductive formulation of the design was "
+             "symbolic probe request (GET, or OPTIONS through the OPTIONS filter) through Dispatch and through ServeHTTP (ServeMux modelled) and must answer identically (status, route function, Allow); per history, variants send the probe once earlier (before one of the operations) and switch dynamic routes on at once, after the first routes, or only before the first route change; Add/Remove must not panic. The inductive formulation of the design was "
              "not built: the claim is bounded by history length.", design="5 (C11)"),
  "C19": dict(text="Per configuration family the same (or a second) symbolic request is served again on the same container and compared with the first answer / a fresh twin; a frame monitor in the "
              "executor classifies every store made while serving by the allocation epoch of its target and reports stores to state that outlives the request; trace on/off must agree; values "
-             "handed to one handler are scribbled on and must not reach the next.", design="5 (C19), 2.7"),
+             "handed to one handler are scribbled on (and a new path parameter is left behind) and must not reach the next; for five request shapes two requests in flight after a warm-up request are decided race-free and stuck-free over all schedules (event-order encoding).", design="5 (C19), 2.7, 2.8"),
  "C12": dict(text="Two threads - one request (to the changed service, to another one, or an OPTIONS request through OPTIONSFilter) through Dispatch or ServeHTTP, one of Add/Remove/Route/RemoveRoute - are executed in recording mode (loads/stores of pre-existing objects and RWMutex "
              "operations become events); per pair of conflicting accesses the solver decides over all schedules whether they can be adjacent (data race), and one query decides whether a state "
-             "with a thread blocked forever is reachable (incl. a pending writer blocking new readers). Value-level snapshot semantics is not claimed (see level_note).", design="5 (C12), 2.8",
-             note="Each thread is executed alone from the pre-mutation state, so its control flow does not react to the other thread's writes; more threads/operations, the Go memory model, scheduler fairness and re-entrant user code are outside the claim."),
+             "with a thread blocked forever is reachable (incl. a pending writer blocking new readers). Value level: the same two threads are run interleaved on one state, every interleaving with context switches at lock acquisitions and a bounded number of preemptions being one path (bounded interleaving exploration); the concurrent request's answer must be the one of the registrations before or after the change, and nine later requests must be answered as on a container where the change was made with no request in flight; schedules are replayed natively with the order enforced.", design="5 (C12), 2.8, 2.8b", tech="; schedules are solver variables in the event-order encoding (data race / stuck state over all interleavings of the bounded thread set) and forked alternatives in the bounded interleaving exploration (context switches at lock acquisitions, preemption-bounded), each counterexample schedule replayed natively",
+             note="Event-order half: each thread is executed alone from the pre-mutation state. Interleaving half: context switches only at lock acquisitions (complete for lock-ordered accesses, which the race query establishes), <= 2 preemptions quick / 4 thorough. More threads/operations, the Go memory model, scheduler fairness and re-entrant user code are outside the claim."),
  "C13": dict(text="Concurrent half: the real BoundedCachedCompressors code runs per thread in recording mode (channel operations become events with symbolic results); for every capacity, initial "
              "fill, object kind and 2-3 threads one solver query over 8-bit timestamps and executed-flags decides whether any schedule reaches a state in which a thread is blocked forever in "
              "Acquire*/Release*. Sequential half: a ledger provider wrapped around the real providers proves on every path of the C07 harness and of two consecutive ReadEntity calls that each "
-             "acquired object is released exactly once and not used afterwards.", design="5 (C13), 2.8"),
+             "acquired object is released exactly once and not used afterwards.", design="5 (C13), 2.8", tech="; schedules are solver variables in the event-order encoding (stuck state over all interleavings of the bounded thread set)"),
  "C06": dict(text="Enumerated filter counts per level and entry modes; each generated filter's behaviour (pass on / stop, replace the request-response pair, set an attribute, http middleware) "
              "is a symbolic bit; the solver proves on every path that the log of filter and handler invocations equals the reference sequence and that the pair and attributes passed on are "
-             "the ones received, also after an earlier request on the same container.", design="5 (C06)"),
+             "the ones received, also after an earlier request on the same container (to the same route or to a sibling with the same method and path and its own route filter); routing failures are produced by the built-in routers and by a custom RouteSelector that reports a plain error.", design="5 (C06)"),
  "C08": dict(text="CrossOriginResourceSharing.Filter in a real container with symbolic Origin, symbolic allowed-domain entries and predicate string: the solver proves that any Access-Control-* "
              "response header implies the reference 'origin allowed' predicate, that Allow-Origin echoes the Origin once, credentials only if configured, and that requests without or with a "
              "disallowed Origin are served exactly like on a filter-less twin; a second harness chains two filters with different configurations.", design="5 (C08)"),
@@ -84,7 +84,7 @@ for pid in sorted(claimed):
         "engine": "gosmt",
         "level_claimed": {"category": "model_checking", "text": c["text"], "design_ref": c["design"]},
         "level_note": NOTE + (" " + c["note"] if "note" in c else ""),
-        "technique": TECH,
+        "technique": TECH + c.get("tech", ""),
     })
 m = {
  "version": 1,
